@@ -69,7 +69,7 @@ func c19Eval(tier string, i int) CaseResult {
 		}
 		opts := []mcp.ClientOption{mcp.WithClientGetSSEEnabled(true)}
 		if cs.Static {
-			opts = append(opts, mcp.WithHTTPHeaders(http.Header{"X-Static": []string{"s1"}, "Authorization": []string{"Bearer tok"}}))
+			opts = append(opts, mcp.WithHTTPHeaders(http.Header{"X-Static": []string{"s1"}, "Authorization": []string{"Bearer tok"}, "X-Multi": []string{"m1", "m2", "m3"}}))
 		}
 		beforeCalls := map[string]int{}
 		boom := errors.New("before-request says no")
@@ -200,6 +200,12 @@ func c19Eval(tier string, i int) CaseResult {
 			}
 			if cs.Static && (x.ReqHeader.Get("X-Static") != "s1" || x.ReqHeader.Get("Authorization") != "Bearer tok") {
 				viol = append(viol, V(k("static-header:"+kind), "%s lacks the configured static headers", where))
+			}
+			if got := x.ReqHeader.Values("X-Multi"); cs.Static && strings.Join(got, ",") != "m1,m2,m3" {
+				viol = append(viol, V(k("static-header-values:"+kind), "%s carries %q for a static header configured with the values [m1 m2 m3]", where, got))
+			}
+			if !cs.Static && (x.ReqHeader.Get("X-Static") != "" || len(x.ReqHeader.Values("X-Multi")) != 0) {
+				viol = append(viol, V(k("static-header-unconfigured:"+kind), "%s carries static headers that were never configured", where))
 			}
 			if cs.Handler && x.ReqHeader.Get("X-Via-Handler") != "1" {
 				viol = append(viol, V(k("handler-bypassed:"+kind), "%s did not go through the configured request handler", where))
